@@ -23,11 +23,12 @@ theorem run_builtin_fo (f : Nat) (name : String) (hn : name ∈ foBuiltins) (arg
     (builtin (f + 1) name args).run s = foResult name args s := by
   obtain ⟨h1, h2, h3⟩ := foBuiltins_not_ho name hn
   have h4 := foBuiltins_not_substitute name hn
+  have h5 := foBuiltins_not_probe name hn
   rw [builtin.eq_def]
   unfold foResult
   by_cases ht : name = "trace"
   · simp only [ht, if_true, run_bind, run_modify, run_pure]
-  · simp only [ht, h1, h2, h3, h4, if_false, run_bind, run_get]
+  · simp only [ht, h1, h2, h3, h4, h5, if_false, run_bind, run_get]
     cases prim name args s.heap with
     | none => simp only [run_err]
     | some r => obtain ⟨v, h⟩ := r; simp only [run_bind, run_set, run_pure]
@@ -42,10 +43,11 @@ theorem ref_applyFn_fo (n : Nat) (name : String) (hn : name ∈ foBuiltins) (arg
         | none => .err rs := by
   obtain ⟨h1, h2, h3⟩ := foBuiltins_not_ho name hn
   have h4 := foBuiltins_not_substitute name hn
+  have h5 := foBuiltins_not_probe name hn
   rw [Ref.applyFn.eq_def]
   by_cases ht : name = "trace"
   · simp only [ht, if_true]
-  · simp only [ht, h1, h2, h3, h4, if_false]
+  · simp only [ht, h1, h2, h3, h4, h5, if_false]
     cases prim name args rs.heap with
     | none => rfl
     | some r => rfl
@@ -192,6 +194,67 @@ theorem newClosing_go_nofn (isFn : Nat → Bool) (hno : ∀ i, isFn i = false) :
 theorem closingNow_nofn (s : St) (hno : ∀ i, (scopeOf s i).isFunction = false) : closingNow s = s.linear := by
   unfold closingNow newClosing
   rw [newClosing_go_nofn (isFnScope s) (fun i => hno i)]
+  rfl
+
+/-! ## Loops: labels and stack marks -/
+
+theorem exec_loopStart (f : Nat) (l : Nat) (s : St) :
+    (exec (f + 1) (.loopStart l)).run s = (.ok (), s.jmp (s.pc + 1) s.data) := by rw [exec]; rfl
+
+theorem exec_label (f : Nat) (s : St) :
+    (exec (f + 1) .label).run s = (.ok (), s.jmp (s.pc + 1) s.data) := by rw [exec]; rfl
+
+theorem exec_pushMark (f : Nat) (l : Nat) (s : St) :
+    (exec (f + 1) (.pushMark l)).run s = (.ok (), s.jmp (s.pc + 1) (some (.mark l) :: s.data)) := by
+  rw [exec]; rfl
+
+/-- popping down to the mark of `l`: the mark is on top -/
+theorem run_popToMark_hit (l : Nat) (keep : Bool) (f : Nat) (s : St) (D : List (Option Val))
+    (hd : s.data = some (.mark l) :: D) :
+    (popToMark l keep (f + 1)).run s = (.ok (), { s with data := if keep then some (.mark l) :: D else D }) := by
+  rw [popToMark]
+  simp only [run_bind, run_popData, hd, if_true]
+  cases keep
+  · simp only [Bool.false_eq_true, if_false, run_pure]
+  · simp only [if_true, run_pushData]
+
+/-- … a value that is not that mark is on top: it is dropped -/
+theorem run_popToMark_skip (l : Nat) (keep : Bool) (f : Nat) (s : St) (v : Val) (rest : List (Option Val))
+    (hd : s.data = some v :: rest) (hv : v ≠ .mark l) :
+    (popToMark l keep (f + 1)).run s = (popToMark l keep f).run { s with data := rest } := by
+  rw [popToMark]
+  simp only [run_bind, run_popData, hd]
+  cases v with
+  | mark l' =>
+    have : l' ≠ l := fun e => hv (by rw [e])
+    simp only [this, if_false]
+  | _ => rfl
+
+/-- `PopUntilStackmark` over at most one value above the mark -/
+theorem exec_popUntilMark (f : Nat) (l : Nat) (s : St) (G : List (Option Val)) (D : List (Option Val))
+    (hd : s.data = G ++ some (.mark l) :: D) (hG : G = [] ∨ ∃ v, G = [some v] ∧ v ≠ .mark l) :
+    (exec (f + 1) (.popUntilMark l)).run s = (.ok (), s.jmp (s.pc + 1) (some (.mark l) :: D)) := by
+  rw [exec]
+  simp only [run_bind, run_incPc, run_get]
+  rcases hG with rfl | ⟨v, rfl, hv⟩
+  · have hlen : ({ s with pc := s.pc + 1 } : St).data.length + 1 = (D.length + 1) + 1 := by
+      show s.data.length + 1 = _; rw [hd]; simp
+    rw [hlen, run_popToMark_hit l true _ _ D (by show s.data = _; rw [hd]; rfl)]
+    rfl
+  · have hlen : ({ s with pc := s.pc + 1 } : St).data.length + 1 = ((D.length + 1) + 1) + 1 := by
+      show s.data.length + 1 = _; rw [hd]; simp
+    rw [hlen, run_popToMark_skip l true _ _ v (some (.mark l) :: D) (by show s.data = _; rw [hd]; rfl) hv,
+      run_popToMark_hit l true _ _ D rfl]
+    rfl
+
+/-- `ClearStackmark` with the mark on top -/
+theorem exec_clearMark (f : Nat) (l : Nat) (s : St) (D : List (Option Val)) (hd : s.data = some (.mark l) :: D) :
+    (exec (f + 1) (.clearMark l)).run s = (.ok (), s.jmp (s.pc + 1) D) := by
+  rw [exec]
+  simp only [run_bind, run_get]
+  have hlen : s.data.length + 1 = (D.length + 1) + 1 := by rw [hd]; simp
+  rw [hlen, run_popToMark_hit l false _ s D hd]
+  simp only [Bool.false_eq_true, if_false, run_incPc]
   rfl
 
 end ZygoVerif.Sim
